@@ -299,7 +299,7 @@ CHECKS = {
                  "names in another letter case, authority and glue records, data octets >= 0xC0, empty and 8-bit character strings) and one planned variant: well-formed, truncated "
                  "at a drawn offset, one bit flipped, pointer loop, pointer to itself, pointer beyond the message, forward pointer, answer count exceeding the content, label length "
                  "above 63, RDLENGTH beyond the message, TC on UDP with the full answer on TCP, silence, NXDOMAIN with SOA; oracle: well-formed => exactly the records encoded "
-                 "(per-type fields, TTLs, owner names, section counts); pointer loops / out-of-range pointers / silence / NXDOMAIN => an error, never a result; every query returns "
+                 "(per-type fields, TTLs, owner names, section counts); pointer loops / out-of-range pointers / silence / NXDOMAIN / answers to another question => an error, never a result; every query returns "
                  "or throws within the time its timeouts and retry policy allow; with TTLs of 1-3 s a repeated query after the TTL must reach the server again"),
         "real": ["iora::network::dns::DnsCache", "iora::util::ExpiringCache incl. its purge thread", "std::chrono::steady_clock (reads the simulated CLOCK_MONOTONIC)",
                  "network job: iora::network::DnsClient, dns::DnsResolver, dns::DnsTransport (UDP + TCP fallback, retry timers), dns::DnsMessage::parse, UdpEngine / TcpEngine"],
